@@ -272,4 +272,23 @@ def childAtPath (e : Elem) (ctx : Ctx) (parts : List String) : Option Elem :=
       | none => (none, none)
   (parts.foldl step (some (e, ctx), none)).2
 
+/-- The node reached from `e` by a path of child names (each step: the first matching child). -/
+def walkPath (e : Elem) (ctx : Ctx) : List String → Option (Elem × Ctx)
+  | [] => some (e, ctx)
+  | name :: rest =>
+    match getChild e ctx name with
+    | some r => walkPath r (e.scope :: ctx) rest
+    | none => none
+
+/-- `Element.childrenAtPath(path)`: every child matching the last step (its prefix resolved there)
+of the node the other steps lead to; nothing when a step is missing. A path without steps is
+rejected by the implementation (never sent by the harness). -/
+def childrenAtPath (e : Elem) (ctx : Ctx) (parts : List String) : List Elem :=
+  match parts.getLast? with
+  | none => []
+  | some leaf =>
+    match walkPath e ctx parts.dropLast with
+    | some (node, c) => getChildren node c (some leaf)
+    | none => []
+
 end Suds.Xml
